@@ -285,6 +285,20 @@ hnd_pong(coap_session_t *session, const coap_pdu_t *received, const coap_mid_t m
   op(save);
 }
 
+static atomic_long n_release_handler;
+static void
+release_ud(void *ud) {
+  /* release-userdata handler: called from coap_delete_resource(); re-enters a locked API */
+  const char *save = cur_op;
+  coap_str_const_t nm = {1, (const uint8_t *)"r"};
+  op("release-userdata-handler");
+  atomic_fetch_add(&n_release_handler, 1);
+  (void)coap_get_resource_from_uri_path(srv, &nm);
+  atomic_fetch_add(&n_reentry_calls, 1);
+  free(ud);
+  op(save);
+}
+
 static void
 nolog(coap_log_t level, const char *message) {
   (void)level;
@@ -405,14 +419,15 @@ worker(void *arg) {
       if (r) {
         coap_register_request_handler(r, COAP_REQUEST_GET, hnd_get);
         coap_resource_set_get_observable(r, 1);
+        coap_resource_set_userdata(r, malloc(8));
         coap_add_resource(srv, r);
         if (mine && (rnd() & 1))
           send_req(mine, COAP_MESSAGE_CON, COAP_REQUEST_CODE_GET, name, 1, k->w, seq++, -1);
         if (rnd() & 1)
           usleep(rnd() % 2000);
         r = coap_get_resource_from_uri_path(srv, n);
-        if (r)
-          coap_delete_resource(srv, r);
+        if (r) /* the context argument is documented as ignored; the examples pass NULL */
+          coap_delete_resource(rnd() & 1 ? srv : NULL, r);
       }
       break;
     }
@@ -552,6 +567,7 @@ main(int argc, char **argv) {
   coap_register_request_handler(res_sep, COAP_REQUEST_GET, hnd_sep);
   coap_add_resource(srv, res_sep);
 
+  coap_resource_release_userdata_handler(srv, release_ud);
   for (i = 0; i < 2; i++) {
     coap_context_t *c = i ? cli : srv;
     coap_register_response_handler(c, hnd_rsp);
@@ -637,13 +653,14 @@ main(int argc, char **argv) {
     rc = 4;
   printf("{\"deadlock\":0,\"dual_io\":%d,\"supported\":%d,\"workers\":%d,\"ops\":%d,\"seed\":%llu,\"port\":%d,"
          "\"request_handler\":%ld,\"response_handler\":%ld,\"nack_handler\":%ld,\"event_handler\":%ld,"
-         "\"ping_handler\":%ld,\"pong_handler\":%ld,\"reentry_calls\":%ld,\"notifications\":%ld,"
+         "\"ping_handler\":%ld,\"pong_handler\":%ld,\"release_handler\":%ld,\"reentry_calls\":%ld,\"notifications\":%ld,"
          "\"sent_con\":%ld,\"sent_non\":%ld,\"send_fail\":%ld,\"tracked_con\":%ld,\"unanswered\":%ld,"
          "\"lock_calls\":%ld,\"lock_acquisitions\":%ld,\"lock_handovers\":%ld,\"handover_pairs\":%d,"
          "\"ms\":%ld,\"unanswered_list\":\"%s\",\"opmix\":[",
          dual_io, supported, nw, ops, (unsigned long long)seed, port, atomic_load(&n_req_handler),
          atomic_load(&n_rsp_handler), atomic_load(&n_nack_handler), atomic_load(&n_event_handler),
-         atomic_load(&n_ping_handler), atomic_load(&n_pong_handler), atomic_load(&n_reentry_calls),
+         atomic_load(&n_ping_handler), atomic_load(&n_pong_handler), atomic_load(&n_release_handler),
+         atomic_load(&n_reentry_calls),
          atomic_load(&n_notify_rsp), atomic_load(&n_sent_con), atomic_load(&n_sent_non),
          atomic_load(&n_send_fail), total_sent, unanswered, atomic_load(&lock_calls), lock_acq,
          lock_handover, npairs,
